@@ -9,7 +9,11 @@
 //   t.fd k x h                       -> g- g0 g+ a- a0 a+ b- b0 b+   (g = original value, a = d1, b = d2 at x-h, x, x+h)
 //   t.mono k x1 x2                   -> o1 o2
 //   w.new n {shape lo hi value c q e}^n -> x.. ; o.. ; p..    (transformed values, back-transformed values, function's values)
-//   w.set m {i x}^m                  -> f ; p.. ; fp..         (function's own values, wrapper's copy)
+//   w.newsub n sel {shape lo hi value c q e}^n -> x.. ; o.. ; p..   (second constructor: only the parameters listed in
+//                                       `sel` = comma separated indices in any order, `f` = a foreign parameter the function does
+//                                       not have; x.., o.. in the wrapper's order, p.. all the function's values)
+//   w.set m {i x}^m                  -> f ; p.. ; fp..         (function's own values, wrapper's copy; i = function index)
+//   w.touch m {i}^m                  -> f ; p.. ; fp..         (f() with the current values of the named coordinates)
 //   w.d1 i | w.d2 i j                -> value
 //   w.fd i h                         -> f- f0 f+ a- a0 a+ b0   (a = wrapper d1_i, b0 = wrapper d2_ii)
 //   w.fdx i j h                      -> a- a+ c0                (a = wrapper d1_i at x_j -/+ h, c0 = wrapper d2_ij)
@@ -84,6 +88,7 @@ public:
 struct Wrap : public ReparametrizationDerivableSecondOrderWrapper
 {
   Wrap(std::shared_ptr<SecondOrderDerivable> f) : ReparametrizationDerivableSecondOrderWrapper(f, false) {}
+  Wrap(std::shared_ptr<SecondOrderDerivable> f, const ParameterList& pl) : ReparametrizationDerivableSecondOrderWrapper(f, pl, false) {}
   const ParameterList& fps() const { return functionParameters_; }
 };
 
@@ -109,11 +114,6 @@ static std::shared_ptr<ConstraintInterface> mkConstraint(const std::string& shap
 }
 
 static std::string pname(size_t i) { return "p" + std::to_string(i); }
-
-static TransformedParameter& tp(Wrap& w, size_t i)
-{
-  return dynamic_cast<TransformedParameter&>(const_cast<Parameter&>(w.parameter(pname(i))));
-}
 
 // set transformed coordinate i of the wrapper to x through the public interface, return f
 static double wsetOne(Wrap& w, size_t i, double x)
@@ -152,22 +152,39 @@ static std::string doOp(State& s, const Toks& t)
     }
     return "bad-op";
   }
-  if (o == "w.new")
+  if (o == "w.new" || o == "w.newsub")
   {
     s.w.reset(); s.fn.reset();
+    bool sub = (o == "w.newsub");
     size_t n = toU(t[1]);
+    size_t off = sub ? 3 : 2;
     auto fn = std::make_shared<PolyFunction>();
     for (size_t i = 0; i < n; ++i)
     {
-      size_t b = 2 + 7 * i;
+      size_t b = off + 7 * i;
       fn->add(pname(i), dv(t[b + 3]), mkConstraint(t[b], dv(t[b + 1]), dv(t[b + 2])), dv(t[b + 4]), dv(t[b + 5]), dv(t[b + 6]));
     }
-    std::unique_ptr<Wrap> w(new Wrap(fn));
+    std::unique_ptr<Wrap> w;
+    if (sub)
+    {
+      // the list given to the second constructor: copies of the function's own parameters, in the order of `sel`
+      ParameterList pl;
+      std::string sel = t[2]; size_t pos = 0;
+      while (pos <= sel.size())
+      {
+        size_t c = sel.find(',', pos); if (c == std::string::npos) c = sel.size();
+        std::string tok = sel.substr(pos, c - pos); pos = c + 1;
+        if (tok == "f") pl.addParameter(Parameter("zz", 1.)); else pl.addParameter(fn->parameter(pname(toU(tok))));
+      }
+      w.reset(new Wrap(fn, pl));
+    }
+    else w.reset(new Wrap(fn));
     s.fn = fn; s.w = std::move(w);
+    size_t m = s.w->getNumberOfParameters();
     std::string r;
-    for (size_t i = 0; i < n; ++i) r += hx(s.w->getParameters()[i].getValue()) + " ";
+    for (size_t i = 0; i < m; ++i) r += hx(s.w->getParameters()[i].getValue()) + " ";
     r += ";";
-    for (size_t i = 0; i < n; ++i) r += " " + hx(tp(*s.w, i).getOriginalValue());
+    for (size_t i = 0; i < m; ++i) r += " " + hx(dynamic_cast<const TransformedParameter&>(s.w->getParameters()[i]).getOriginalValue());
     r += " ;";
     for (size_t i = 0; i < n; ++i) r += " " + hx(s.fn->p(i));
     return r;
@@ -179,18 +196,19 @@ static std::string doOp(State& s, const Toks& t)
     size_t n = s.fn->n();
     try
     {
-      if (o == "w.set")
+      if (o == "w.set" || o == "w.touch")
       {
+        bool touch = (o == "w.touch");
         size_t m = toU(t[1]);
         std::vector<std::string> names;
-        for (size_t j = 0; j < m; ++j) names.push_back(pname(toU(t[2 + 2 * j])));
+        for (size_t j = 0; j < m; ++j) names.push_back(pname(toU(t[touch ? 2 + j : 2 + 2 * j])));
         ParameterList pl = w.getParameters().createSubList(names);
-        for (size_t j = 0; j < m; ++j) pl[j].setValue(dv(t[3 + 2 * j]));
+        if (!touch) for (size_t j = 0; j < m; ++j) pl[j].setValue(dv(t[3 + 2 * j]));
         double f = w.f(pl);
         std::string r = hx(f) + " ;";
         for (size_t i = 0; i < n; ++i) r += " " + hx(s.fn->p(i));
         r += " ;";
-        for (size_t i = 0; i < n; ++i) r += " " + hx(w.fps()[i].getValue());
+        for (size_t i = 0; i < w.fps().size(); ++i) r += " " + hx(w.fps()[i].getValue());
         return r;
       }
       if (o == "w.d1") { return hx(w.getFirstOrderDerivative(pname(toU(t[1])))); }
@@ -202,7 +220,7 @@ static std::string doOp(State& s, const Toks& t)
       if (o == "w.fd")
       {
         size_t i = toU(t[1]); double h = dv(t[2]);
-        double x = w.getParameters()[i].getValue();
+        double x = w.parameter(pname(i)).getValue();
         double fm = wsetOne(w, i, x - h); double am = w.getFirstOrderDerivative(pname(i));
         double fp = wsetOne(w, i, x + h); double ap = w.getFirstOrderDerivative(pname(i));
         double f0 = wsetOne(w, i, x); double a0 = w.getFirstOrderDerivative(pname(i));
@@ -212,7 +230,8 @@ static std::string doOp(State& s, const Toks& t)
       if (o == "w.fdx")
       {
         size_t i = toU(t[1]), j = toU(t[2]); double h = dv(t[3]);
-        double x = w.getParameters()[j].getValue();
+        double x = w.parameter(pname(j)).getValue();
+        w.parameter(pname(i));   // both coordinates must belong to the wrapper
         wsetOne(w, j, x - h); double am = w.getFirstOrderDerivative(pname(i));
         wsetOne(w, j, x + h); double ap = w.getFirstOrderDerivative(pname(i));
         wsetOne(w, j, x);
